@@ -625,6 +625,11 @@ def obligations(tier):
          forward_equivariant(Q), sibling_permutation(), bounded(tier)]
   # premises: "every quantity is carried in an explicit frame and moved with Transform.do / inv_do / math.rotate" -- the frame-moving helpers are what they claim to be
   # (the corresponding C09 obligations, carried here as premises so that a slip in one of them is reported against C05 as well)
+  # the callee contract of scan._take (every index list, also those only forests of 7+ links produce) -- shared with C01
+  from verif.contracts import C01
+  tk = C01.take_contract(4, 4) if tier == 'quick' else C01.take_contract(5, 5)
+  tk.id = 'C05/scan._take/gather'
+  obs.append(tk)
   from verif.contracts import C09
   want = ('C09/quat_mul/hamilton', 'C09/rotate/sandwich', 'C09/vec_quat_mul/embed', 'C09/Transform.do/spec', 'C09/Transform.do[Motion]/spec', 'C09/Transform.do[Force]/spec',
           'C09/Transform.do[Motion]/inverse', 'C09/relative_quat/def')
